@@ -222,6 +222,38 @@ def main():
             res = E.run_tlc('TraceRankGraph', cfg, workers=1, env={'TRACE_FILE': tf}, timeout=900)
             E.require_ok(res, 'TraceRankGraph')
             return res
+        # ---- what the user reads: pairwise_ranks.tsv of one-batch CLI runs (the names pass through the cardinality / coverage
+        # annotation and the writer on their way out); the rows of the file are validated like a recorded batch
+        import re as _re
+        cli_confs = [('Constant', 'target', ['f1', 'label', 'f2', 'f3'], 'label'), ('Constant', 'pairwise', ['label', 'f1', 'f2'], 'label'),
+                     ('scoring', 'target', ['label', 'f1', 'f2', 'f3'], 'label'), ('scoring', 'pairwise', ['f1', 'y', 'f2'], 'y')]
+        for ci, (kind_c, mode_c, cols_c, lab_c) in enumerate(cli_confs if tier == 'quick' else cli_confs + [('Constant', 'target', ['f1', 'f2', 'label'], 'label'), ('scoring', 'target', ['f1', 'label', 'f2'], 'label')]):
+            sub = os.path.join(wd, f'cli{ci}')
+            os.makedirs(os.path.join(sub, 'ds'))
+            with open(os.path.join(sub, 'ds', 'data.csv'), 'w') as f_:
+                f_.write(','.join(cols_c) + '\n')
+                for i_ in range(1300):
+                    f_.write(','.join(str(rng.randrange(2 + k_)) for k_ in range(len(cols_c))) + '\n')
+            heur_c = 'Constant' if kind_c == 'Constant' else 'MI-numba-randomized'
+            a_c = dict(task='ranking', data_path='ds', data_source='csv-raw', minibatch_size=1300, subsampling=1, heuristic=heur_c, label_column=lab_c,
+                       target_ranking_only='True' if mode_c == 'target' else 'False', include_cardinality_in_feature_names='True', output_folder='out', num_threads=1)
+            rc_c, err_c = PC.run_cli(a_c, sub)
+            key_c = f'cli:cols={cols_c} label={lab_c!r} mode={mode_c} heuristic={heur_c}'
+            # (a Constant run without a trailing batch ends with exit 1 AFTER writing its results - the clean-up removes a checkpoint
+            # nothing wrote; Pipeline.tla models that as `crashed`, and it is not this property's business: the file is judged)
+            if not os.path.exists(os.path.join(sub, 'out', 'pairwise_ranks.tsv')):
+                V.violation('raises:' + key_c, f'ranking task exited {rc_c}: {str(err_c)[-300:]}', a_c)
+                continue
+            rows_c = PC.read_ranks(os.path.join(sub, 'out'))[1]
+            strip = lambda n_: _re.sub(r'-\(\d+; \d+\)$', '', n_)
+            try:
+                trip_c = [[strip(a_), strip(b_), int(round(float(s_) * 2 ** 20)) if float(s_) == float(s_) else 0] for a_, b_, s_ in rows_c]
+            except ValueError:
+                V.violation('cli-rows:' + key_c, f'pairwise_ranks.tsv has a row that is not (FeatureA, FeatureB, score): {rows_c[:4]}', a_c)
+                continue
+            ncand_c = len(cols_c) if mode_c == 'target' else len(cols_c) * (len(cols_c) + 1) // 2
+            recs.append({'cols': cols_c, 'rel': [], 'label': lab_c, 'mode': mode_c, 'kind': kind_c, 'cap': 2 ** 15, 'ncand': ncand_c, 'ndup': 0, 'trip': trip_c, 'key': key_c})
+            jobs.append({'columns': cols_c, 'args': dict(a_c, label_column=lab_c), 'cli': True})
         res = validate(recs)
         V.add_tlc(res, 'TraceRankGraph')
         rest = recs
